@@ -142,7 +142,7 @@ def _run_one(case, ctx):
     m = recipes.fresh(case["recipe"])
     if adapters.is_leaf(m):
         raise monitor.OutOfScope()
-    graph, top, info = common.domain(m, allow_prefixed=True)
+    graph, top, info = common.domain(m, allow_prefixed=True, recipe=case["recipe"])
     if graph[top]["b"][0] == graph[top]["b"][1]:
         raise monitor.OutOfScope()
     if case.get("deep"):
